@@ -61,3 +61,14 @@ CHECKS = {
         "thorough": {"shards": 16, "budget_s": 900},
     },
 }
+
+# Additional checks are defined one per file in bin/checks.d/<ID>.json:
+#   {"check": {...same keys as above...}, "meta": {"technique":..., "text":..., "design_ref":..., "note":...}}
+import glob as _glob, json as _json, os as _os
+EXTRA_META = {}
+for _f in sorted(_glob.glob(_os.path.join(_os.path.dirname(_os.path.abspath(__file__)), "checks.d", "*.json"))):
+    _d = _json.load(open(_f))
+    _id = _os.path.basename(_f)[:-5]
+    CHECKS[_id] = _d["check"]
+    if "meta" in _d:
+        EXTRA_META[_id] = _d["meta"]
